@@ -743,12 +743,52 @@ def r17f(ctx: Context) -> None:
                 rule.ok(key, f"rejects exactly the integers outside [{low}, {high if high is not None else 'inf'}]")
 
 
+def r17g(ctx: Context) -> None:
+    """'Strict mode on: the run stops with a configuration error.'  The error reaches main as an exception of the
+    initialisation phase; the handler hands it to the error reporter, which ends the process unless it is told
+    not to.  From inside an exception handler it must never be told not to - whatever the other options say."""
+    prog = ctx.prog
+    rule = ctx.rule("R17g", "an exception caught by main always ends the run (the error reporter is never told to carry on from a handler)", 6)
+    main_cls = prog.cls(MAIN)
+    reporter = prog.method(MAIN, "__handle_error")
+    exits = [s for s in prog.sites_in(reporter) if any(t.name == "exit_application" for t in s.targets)]
+    if len(exits) != 1:
+        raise AnalysisError("__handle_error no longer ends the process in exactly one place")
+    flags = [test.id for test, pol in guards_of(reporter.node, exits[0].node, include_asserts=False) if pol and isinstance(test, ast.Name) and test.id in reporter.params]
+    others = [norm(test) for test, pol in guards_of(reporter.node, exits[0].node, include_asserts=False) if not (pol and isinstance(test, ast.Name) and test.id in reporter.params)]
+    if len(flags) != 1 or others:
+        rule.fail(func_key(reporter), where(reporter, exits[0].node), f"the error reporter ends the process under {flags + others}: a reported error does not reliably stop the run")
+        return
+    flag = flags[0]
+    default = None
+    positional = reporter.node.args.args
+    defaults = reporter.node.args.defaults
+    for arg, value in zip(positional[len(positional) - len(defaults):], defaults):
+        if arg.arg == flag:
+            default = value
+    for method in main_cls.methods.values():
+        for site in prog.sites_in(method):
+            if reporter not in site.targets:
+                continue
+            in_handler = any(isinstance(h, ast.ExceptHandler) and any(sub is site.node for sub in ast.walk(h)) for h in walk_local(method.node))
+            if not in_handler:
+                continue
+            bound = Program.bind_args(reporter, site.node, skip_self=True)
+            value = bound.get(flag, default)
+            key = func_key(method, site.node)
+            if isinstance(value, ast.Constant) and value.value is True:
+                rule.ok(key, "the caught error ends the run")
+            else:
+                rule.fail(key, site.where, f"{method.short} reports a caught exception with {flag}={norm(value) if value is not None else 'nothing'}: the run carries on after the error (a strict-mode configuration error, a plugin that cannot be initialised) with whatever was set up before it")
+
+
 def run(ctx: Context) -> None:
     r17a(ctx)
     r17b(ctx)
     r17c(ctx)
     r17d(ctx)
     r17f(ctx)
+    r17g(ctx)
     from sa.rules import c18
 
     c18.config_read_after_load(ctx, "R17e")
